@@ -6,8 +6,14 @@ package main
 
 import (
 	"fmt"
+	"os"
 	"strings"
 )
+
+// VERIF_C20_EMBDISJ=1 makes the embedded-disjunction forms of unitDisjStruct as frequent as
+// the others (used to validate a fix of the trim-stack-overflow finding; without a fix each
+// unresolved one kills a worker).
+var c20EmbDisjFrequent = os.Getenv("VERIF_C20_EMBDISJ") != ""
 
 // a leaf schema with the data values that relate to it
 type c20leaf struct {
@@ -298,7 +304,7 @@ func (g *c20gen) unitPattern() {
 func (g *c20gen) unitDisjStruct() {
 	d := g.id("#U")
 	form := g.r.Intn(2)
-	if g.r.Chance(1, 40) {
+	if g.r.Chance(1, 40) || (c20EmbDisjFrequent && g.r.Bool()) {
 		// (embedded disjunctions: trim.Files does not terminate on a definition of this
 		// shape that is left unresolved — kept rare because each one costs a worker)
 		form = 2 + g.r.Intn(2)
